@@ -31,6 +31,11 @@ struct Case {
     /// every file but — like Blizzard's own archives — not itself
     #[serde(default)]
     ext_listfile: bool,
+    /// 512-byte units of foreign bytes in front of the source archive (an archive embedded behind
+    /// a stub / user data: the header is found at a 512-byte boundary, every position is relative
+    /// to it)
+    #[serde(default)]
+    prefix_units: u8,
 }
 
 fn fv(v: u8) -> FormatVersion {
@@ -131,6 +136,12 @@ fn check_case(check: &Check, case: &Case, origin: &str) -> CaseResult {
         check.bump("discard_source_build_err", 1);
         return Ok(());
     }
+    if case.prefix_units > 0 {
+        let mut b = vec![0xA5u8; case.prefix_units as usize * 512];
+        b.extend(std::fs::read(&src).map_err(|e| engine::Fail::new("harness:io", e.to_string()))?);
+        std::fs::write(&src, b).map_err(|e| engine::Fail::new("harness:io", e.to_string()))?;
+        check.bump("source_behind_prefix", 1);
+    }
     // the source itself must read back correctly, otherwise the case is discarded (C01's business)
     let sector = spec.sector();
     {
@@ -155,9 +166,10 @@ fn check_case(check: &Check, case: &Case, origin: &str) -> CaseResult {
     let any_multi = spec.files.iter().enumerate().any(|(i, _)| spec.content(i).len() > sector);
     let tgt_v = o.target.unwrap_or(if o.preserve_format { spec.version } else { 4 });
     let class = format!(
-        "{origin}:V{}→V{}:lf{}{}:at{}:enc{}:multi{}:oc{:?}:obs{}:skipenc{}:verify{}:lo{}",
+        "{origin}:V{}→V{}:off{}:lf{}{}:at{}:enc{}:multi{}:oc{:?}:obs{}:skipenc{}:verify{}:lo{}",
         spec.version,
         tgt_v,
+        (case.prefix_units > 0) as u8,
         spec.listfile as u8,
         if ext { "x" } else { "" },
         spec.has_attributes() as u8,
@@ -474,6 +486,7 @@ fn grid() -> Vec<Case> {
                         src: ArchiveSpec { version: sv, shift: 0, crcs: false, attrs: if sv % 2 == 0 { Attrs::Crc32 } else { Attrs::None }, listfile, compress_tables: false, table_method: M_ZLIB, files },
                         opts: Opts { target: Some(tv), preserve_format: false, override_compression: None, override_block_size: None, skip_encrypted: false, skip_signatures: true, verify, preserve_order: true, list_only: false },
                         ext_listfile: false,
+                        prefix_units: if (sv + tv) % 3 == 0 && verify { 1 + (sv % 3) } else { 0 },
                     });
                     if listfile && !verify {
                         let mut c = v.last().unwrap().clone();
@@ -523,7 +536,7 @@ fn main() {
         "c07",
         n,
         pt::Opts::default(),
-        || (archive_strategy(src_params()), opts_strategy(), prop_oneof![3 => Just(false), 1 => Just(true)]).prop_map(|(src, opts, ext_listfile)| Case { src, opts, ext_listfile }),
+        || (archive_strategy(src_params()), opts_strategy(), prop_oneof![3 => Just(false), 1 => Just(true)], prop_oneof![3 => Just(0u8), 1 => 1u8..6]).prop_map(|(src, opts, ext_listfile, prefix_units)| Case { src, opts, ext_listfile, prefix_units }),
         |c| serde_json::to_value(c).unwrap(),
         |c| check_case(&check, c, "rnd"),
     );
